@@ -5,7 +5,7 @@ tier=${1:-quick}
 for i in $(seq -w 1 20); do
   p=C$i
   s=$(date +%s)
-  out=$(./check.sh $p $tier 2>&1 | grep -v conda)
-  rc=$?
-  echo "$p rc=${PIPESTATUS[0]} $(( $(date +%s) - s ))s :: $(echo "$out" | grep -E 'VIOLATION|KNOWN|INTERNAL' | cut -c1-120 | tr '\n' '|')"
+  out=$(./check.sh $p $tier 2>&1; echo "__rc=$?")
+  rc=$(echo "$out" | sed -n 's/^__rc=//p')
+  echo "$p rc=$rc $(( $(date +%s) - s ))s :: $(echo "$out" | grep -E 'VIOLATION|KNOWN|INTERNAL' | cut -c1-120 | tr '\n' '|')"
 done
